@@ -367,6 +367,57 @@ def join_shapes(ctx):
                         rep.fail('join-shape:kept-source-changed:%s' % label, case, {'fields': got})
 
 
+def concat_shapes(ctx):
+    """concatenate over a selection: bystander resources (before, between-free, after the selected run) that have
+    columns named like the mapped ones, with other types; renaming mappings; the target and every bystander conform"""
+    rep = ctx.report
+    from dataflows.base.schema_validator import ValidationError
+    from tableschema.exceptions import TableSchemaException
+    labels = [{'code': 'x1', 'year': 'MM'}, {'code': 'x2', 'year': 'MMI'}]          # code, year: strings
+    y1 = [{'id': 1, 'year': 2001, 'v': 1.5}, {'id': 2, 'year': 2002, 'v': 2.5}]       # id, year: integers
+    y2 = [{'id': 1, 'yr': 2003, 'v': 0.5}, {'id': 3, 'yr': 2004, 'v': None}]
+    notes = [{'id': 'n1', 'v': 'text'}]                                               # id, v: strings
+    mappings = {
+        'same-names': {'id': [], 'year': ['yr'], 'v': []},
+        'renaming': {'code': ['id'], 'year': ['yr'], 'value': ['v']},
+        'subset': {'id': [], 'v': []},
+    }
+    layouts = {
+        'bystander-first': ([labels, y1, y2], ['res_2', 'res_3']),
+        'bystander-last': ([y1, y2, notes], ['res_1', 'res_2']),
+        'bystanders-both': ([labels, y1, y2, notes], ['res_2', 'res_3']),
+        'all-selected': ([y1, y2], None),
+    }
+    for lname, (sources, sel) in layouts.items():
+        for mname, mapping in mappings.items():
+            case = {'concat-shape': lname, 'mapping': mname}
+            try:
+                with quiet():
+                    before = Flow(*[copy.deepcopy(s) for s in sources]).results()
+                    res, dp, _ = Flow(*[copy.deepcopy(s) for s in sources],
+                                      DF.concatenate(copy.deepcopy(mapping), target={'name': 'all', 'path': 'all.csv'},
+                                                     resources=sel)).results()
+            except Exception as e:  # noqa
+                cause = getattr(e, 'cause', e)
+                rep.case('concat-shape', case, nontrivial=False)
+                if isinstance(cause, (ValidationError, TableSchemaException)):
+                    rep.fail('concat-shape-fails:%s:%s:%s' % (lname, mname, type(cause).__name__), case, repr(e)[:300])
+                else:
+                    rep.hist('concat_shape_rejected', '%s:%s:%s' % (lname, mname, type(cause).__name__))
+                continue
+            rep.case('concat-shape', case)
+            for sig, detail in check_result(res, dp):
+                rep.fail('%s:concat-shape:%s:%s' % (sig, lname, mname), case, detail)
+            # bystanders leave as they came
+            b_desc = {r['name']: r for r in before[1].descriptor['resources']}
+            b_rows = dict(zip([r['name'] for r in before[1].descriptor['resources']], before[0]))
+            for r, rows in zip(dp.descriptor['resources'], res):
+                if r['name'] in b_desc and (sel is not None and r['name'] not in sel):
+                    if r['schema'] != b_desc[r['name']]['schema'] or [dict(x) for x in rows] != [dict(x) for x in b_rows[r['name']]]:
+                        rep.fail('concat-shape:bystander-changed:%s:%s' % (lname, mname), case,
+                                 {'resource': r['name'], 'fields': [f['name'] for f in r['schema']['fields']]})
+
+
 def probe(finding):
     if finding['signature'].startswith('row-has-undeclared-field:after:join'):
         with quiet():
@@ -390,6 +441,7 @@ def run(ctx):
         pipeline_case(ctx, rng, idx)
     join_matrix(ctx)
     join_shapes(ctx)
+    concat_shapes(ctx)
     computed_matrix(ctx)
     if ctx.model.available():
         outs = ctx.model.run([op for _, op, _ in SCHEMA_PENDING])
